@@ -206,6 +206,26 @@ func init() {
 				in.ZeroInput1 = zero + 1
 				in.GroupTyped = grouped
 				in.ViaSet = viaSet
+				if c.Idx%5 == 2 {
+					// history: a caller's wrapper built over the target's OWN
+					// input and output sets (BuildFunc(f.Input(), f.Output(),
+					// cb)) has served a call with other values; what that
+					// left behind must not shadow the exact inputs of the
+					// call under test
+					tf := in.Target.Func
+					if px, err := am.BuildFunc(tf.Input(), tf.Output(), func(vin, vout *am.ValueSet) error {
+						rr := tf.Call(vin.Args()...)
+						if rr.Err() != nil {
+							return rr.Err()
+						}
+						return vout.FromResult(rr)
+					}); err == nil {
+						if o := DoCall(in.W, px, in.AllArgs(70, rand.New(&splitmix{s: uint64(c.Idx) + 77}))); o.Class == ClsOK {
+							res.obs("exact_calls_after_a_wrapper_call_over_the_targets_own_sets", 1)
+						}
+						res.Evals++
+					}
+				}
 				if !memoFirst {
 					return
 				}
@@ -439,6 +459,9 @@ func init() {
 			}
 			if c.Idx%43 == 9 {
 				return runC05AllGenerated(c, r)
+			}
+			if c.Idx%43 == 31 {
+				return runC05Retagged(c, r)
 			}
 			var s Scenario
 			fam := ""
